@@ -25,9 +25,9 @@ EXHAUSTIVE = {"quick": True, "thorough": True}
 OPS = ["shell", "exec_out", "streaming_shell", "root", "reboot", "list", "stat", "pull", "push"]
 ALPHABET = (["connect-ok", "connect-pubkey", "connect-refused", "connect-nokeys", "connect-silent", "close"] + OPS + ["list-empty", "stat-empty", "pull-empty", "push-empty"]
             + ["push-dir", "stream-create", "stream-next"] + ["connect-keytimeout", "pull-bytesio", "push-bytesio"])
-CONNECT_FAILS = ["connect-refused", "connect-nokeys", "connect-silent", "connect-keytimeout"]
+CONNECT_FAILS = ["connect-refused", "connect-nokeys", "connect-silent", "connect-keytimeout", "connect-stls"]
 NBASE = len(ALPHABET)        # the exhaustive enumeration runs over these; the symbols below appear in directed and random sequences only
-EXTRA = ["pushdir-empty", "shell-emptycmd", "exec_out-emptycmd", "streaming_shell-emptycmd", "shell-blankcmd", "connect-maxdata0", "push-fail"]
+EXTRA = ["connect-stls", "pull-newdir", "pull-newdir-empty", "pushdir-empty", "shell-emptycmd", "exec_out-emptycmd", "streaming_shell-emptycmd", "shell-blankcmd", "connect-maxdata0", "push-fail"]
 ALPHABET = ALPHABET + EXTRA
 
 
@@ -125,6 +125,9 @@ def run_sequence(impl, seq, stats, tmp):
                     sim.auth = simdev.AuthPlan(require=True)
                 elif name == "connect-silent":
                     sim.silent = True
+                elif name == "connect-stls":
+                    # the device answers CNXN with a well-formed packet of another kind (Android 11+ asks for TLS with 'STLS'): that is not a connection
+                    sim.auth = simdev.AuthPlan(answer_word=0x534C5453)
                 elif name == "connect-keytimeout":
                     # every signature is rejected, the public key is offered and nobody confirms it before auth_timeout_s
                     sim.auth = simdev.AuthPlan(require=True, accept_pubkey=False)
@@ -248,6 +251,13 @@ def run_sequence(impl, seq, stats, tmp):
                     op, isdir_empty = "push", True
                 else:
                     isdir_empty = False
+                newdir = empty.startswith("newdir")
+                if newdir:
+                    # a destination whose directory does not exist yet: a refused pull leaves the file system alone
+                    empty = "empty" if empty.endswith("-empty") else ("" if not model else "skip")
+                    if empty == "skip":
+                        names.append("(skipped: connected)")
+                        continue
                 isdir = empty == "dir" or isdir_empty
                 bio = empty == "bytesio"
                 if (isdir and not isdir_empty) or bio:
@@ -269,6 +279,8 @@ def run_sequence(impl, seq, stats, tmp):
                         out = sess.call(op)
                     elif op in ("list", "stat"):
                         out = sess.call(op, path)
+                    elif op == "pull" and newdir:
+                        out = sess.call(op, path, os.path.join(tmp, "newdir-%d" % i, "sub", "file"))
                     elif op == "pull":
                         out = sess.call(op, path, io.BytesIO() if bio else os.path.join(tmp, "must-not-exist-%d" % i))
                     elif op == "push" and bio:
@@ -293,7 +305,8 @@ def run_sequence(impl, seq, stats, tmp):
                         viol.append({"mechanism": "file-created", "detail": "%s created %r" % (where, sorted(new_files))})
                         for f in new_files:
                             if f not in ("src", "srcdir"):
-                                os.unlink(os.path.join(tmp, f))
+                                pth = os.path.join(tmp, f)
+                                shutil.rmtree(pth) if os.path.isdir(pth) else os.unlink(pth)
                 else:
                     spec = dict(STEP_SPECS[op])
                     if bio:
@@ -358,7 +371,8 @@ def run_case(case):
             stats["sequences"] += 1
             for f in os.listdir(tmp):
                 if f not in ("src", "srcdir"):
-                    os.unlink(os.path.join(tmp, f))
+                    pth = os.path.join(tmp, f)
+                    shutil.rmtree(pth) if os.path.isdir(pth) else os.unlink(pth)
             if nontrivial(seq):
                 sigs.append("%s|%s" % (case["impl"], ".".join(str(s) for s in seq)))
             viol.extend(v)
